@@ -79,7 +79,7 @@ def main():
     seeds = sys.argv[1:] or sorted(d for d in os.listdir(os.path.join(HERE, "seeded")) if os.path.isdir(os.path.join(HERE, "seeded", d)))
     out_path = os.path.join(HERE, "seeded", "MATRIX.json")
     matrix = json.load(open(out_path)) if os.path.exists(out_path) and sys.argv[1:] else {}
-    with cf.ThreadPoolExecutor(max_workers=3) as ex:
+    with cf.ThreadPoolExecutor(max_workers=4) as ex:
         for seed, res in ex.map(run_seed, seeds):
             matrix[seed] = res
             own = seed.split("-")[0]
